@@ -93,7 +93,7 @@ type mgBatch struct {
 // choices) and returns the emitted behaviours per program.
 func runMiniGoSpec(c *Ctx, progs []*Prog, maxCh int, tag string) *mgBatch {
 	b := &mgBatch{Progs: progs, Sources: map[string]string{}, Behs: map[string][]MGBehaviour{}}
-	chunk := 150
+	chunk := 40
 	type res struct {
 		behs []MGBehaviour
 		st   [2]int64
